@@ -114,10 +114,11 @@ func (am *YAMLAccountManager) Update(account hotline.Account, newLogin string) e
 			return fmt.Errorf("error renaming account file: %w", err)
 		}
 
+		// Drop the previous login from the in-memory table before the account takes its new login.
+		delete(am.accounts, account.Login)
+
 		account.Login = newLogin
 		am.accounts[newLogin] = account
-
-		delete(am.accounts, account.Login)
 	}
 
 	out, err := yaml.Marshal(&account)
